@@ -17,7 +17,7 @@ from common.util import Result, f2b, b2f, fl, err_kind
 from common import nets, amplib
 
 ID = 'C10'
-N = {'quick': 1500, 'thorough': 40000}
+N = {'quick': 5000, 'thorough': 60000}
 LEAN_MODULES = ['GnpyProofs.Props.C10']
 THEOREMS = [f'Gnpy.Select.{t}' for t in (
     'restriction_own_list_first', 'restriction_booster_second', 'restriction_preamp_third', 'restriction_none',
@@ -113,9 +113,17 @@ def gen_sel_lib(rng, n=None, bands=False, multiband=False, all_allowed=False):
             e['allowed_for_design'] = rng.random() < 0.5
             ls.append(e)
         entries += cs + ls
+        seen = []
+        dup_ok = rng.random() < 0.12     # identical groupings under two names: a separate (rare) input class
         for j in range(rng.choice([1, 2, 3, 4])):
-            entries.append({'type_variety': f'm{j}', 'type_def': 'multi_band',
-                            'amplifiers': [rng.choice(cs)['type_variety'], rng.choice(ls)['type_variety']],
+            for _ in range(6):
+                grp = [rng.choice(cs)['type_variety'], rng.choice(ls)['type_variety']]
+                if dup_ok or grp not in seen:
+                    break
+            if grp in seen and not dup_ok:
+                continue
+            seen.append(grp)
+            entries.append({'type_variety': f'm{j}', 'type_def': 'multi_band', 'amplifiers': grp,
                             'allowed_for_design': rng.random() < 0.6})
     return entries
 
@@ -148,8 +156,10 @@ def gen(rng, tier, widen=False):
         return gen_select(rng, widen)
     if k < 0.70:
         return gen_restr(rng)
-    if k < 0.92:
+    if k < 0.88:
         return gen_topo(rng, tier)
+    if k < 0.94:
+        return gen_mtopo(rng)
     return gen_presel(rng)
 
 
@@ -263,6 +273,37 @@ def gen_topo(rng, tier):
             'lines': lines, 'si': si}
 
 
+
+CDESIGN = [(191_300_000_000_000, 196_000_000_000_000), (191_300_000_000_000, 195_100_000_000_000)]
+LDESIGN = [(187_350_000_000_000, 190_000_000_000_000), (187_000_000_000_000, 190_000_000_000_000)]
+
+
+def gen_mtopo(rng):
+    """two ROADMs with two design bands, Multiband_amplifier nodes (auto-designed or user-typed) around one fibre per
+    direction; generated multiband library"""
+    entries = good_lib(rng, n=rng.choice([1, 2]), multiband=True)
+    mnames = [e['type_variety'] for e in entries if e['type_def'] == 'multi_band']
+
+    def sub():
+        return rng.sample(mnames, rng.randrange(1, len(mnames) + 1))
+
+    def rlist():
+        return rng.choice([[], [], sub()])
+    bands = [list(rng.choice(LDESIGN)), list(rng.choice(CDESIGN))]
+    lines = {}
+    for d in ('ab', 'ba'):
+        lines[d] = [{'el': 'mb', 'uid': f'boost {d}', 'type_variety': rng.choice(['', '', '', rng.choice(mnames)]),
+                     'variety_list': rng.choice([None, None, sub()])},
+                    {'el': 'fiber', 'uid': f'fiber {d}', 'length': rng.choice([40, 50, 60, 80, 100]), 'loss_coef': 0.2,
+                     'type_variety': 'SSMF'},
+                    {'el': 'mb', 'uid': f'pre {d}', 'type_variety': rng.choice(['', '', '', rng.choice(mnames)]),
+                     'variety_list': rng.choice([None, None, sub()])}]
+    return {'kind': 'mtopo', 'edfa': entries, 'bands': bands,
+            'roadm': {'A': {'booster_variety_list': rlist(), 'preamp_variety_list': rlist()},
+                      'B': {'booster_variety_list': rlist(), 'preamp_variety_list': rlist()}},
+            'lines': lines, 'ext': rng.choice([2.5, 2.5, 0])}
+
+
 def gen_presel(rng):
     entries = good_lib(rng, n=rng.choice([1, 2]), multiband=True)
     mnames = [e['type_variety'] for e in entries if e['type_def'] == 'multi_band']
@@ -286,7 +327,8 @@ def run(case, drv):
     import warnings
     with warnings.catch_warnings(), np.errstate(all='ignore'):
         warnings.simplefilter('ignore')
-        return {'select': run_select, 'restr': run_restr, 'topo': run_topo, 'presel': run_presel}[case['kind']](case, drv)
+        return {'select': run_select, 'restr': run_restr, 'topo': run_topo, 'presel': run_presel,
+                'mtopo': run_mtopo}[case['kind']](case, drv)
 
 
 def nf_close(a, b):
@@ -618,6 +660,186 @@ def run_topo(case, drv):
     res.nontrivial = auto > 0
     res.stats.update({'topo_cases': 1, 'topo_auto_selected': auto, f'topo_outcome_{err or "designed"}': 1,
                       'topo_select_calls': len(sel_calls)})
+    return res
+
+
+
+def mtopo_json(case):
+    dbands = [{'f_min': float(b[0]), 'f_max': float(b[1]), 'spacing': 50e9} for b in case['bands']]
+    els = [nets.trx('trx A'), nets.trx('trx B')]
+    for r in ('A', 'B'):
+        els.append(nets.roadm(f'roadm {r}', {'restrictions': copy.deepcopy(case['roadm'][r]),
+                                             'design_bands': copy.deepcopy(dbands)}))
+    cxs = [nets.cx('trx A', 'roadm A'), nets.cx('roadm A', 'trx A'), nets.cx('trx B', 'roadm B'),
+           nets.cx('roadm B', 'trx B')]
+    for d, (s_, t_) in (('ab', ('roadm A', 'roadm B')), ('ba', ('roadm B', 'roadm A'))):
+        line = []
+        for it in case['lines'][d]:
+            if it['el'] == 'fiber':
+                line.append(nets.fiber(it['uid'], it['length'], it['type_variety'], loss_coef=it['loss_coef']))
+            else:
+                e = {'uid': it['uid'], 'type': 'Multiband_amplifier', 'type_variety': it['type_variety'],
+                     'metadata': nets.loc()}
+                if it['variety_list'] is not None:
+                    e['variety_list'] = list(it['variety_list'])
+                line.append(e)
+        nets.chain(els, cxs, s_, t_, line)
+    return {'elements': els, 'connections': cxs}
+
+
+def run_mtopo(case, drv):
+    import gnpy.core.network as gnet
+    from gnpy.core.exceptions import ConfigurationError, NetworkTopologyError
+    from gnpy.tools.json_io import network_from_json
+    from gnpy.tools.worker_utils import designed_network
+    res = Result()
+    eq = load_entries(case['edfa'], span={'target_extended_gain': case['ext']})
+    try:
+        net = network_from_json(mtopo_json(case), eq)
+    except (ConfigurationError, NetworkTopologyError) as e:
+        res.stats[f'mtopo_load_{err_kind(e)}'] += 1
+        return res
+    restr_calls, pre_calls, sel_calls, targets = [], [], [], []
+    o_restr, o_pre, o_sel, o_cmp = (gnet.get_node_restrictions, gnet.preselect_multiband_amps, gnet.select_edfa,
+                                    gnet.compute_gain_power_and_tilt_target)
+
+    def w_cmp(*a, **k):
+        out = o_cmp(*a, **k)
+        targets.append((float(out[0]), float(out[1])))
+        return out
+
+    def w_restr(node, prev_node, next_node, equipment, _design_bands):
+        out = o_restr(node, prev_node, next_node, equipment, _design_bands)
+        restr_calls.append({'uid': node.uid, 'tv': node.params.type_variety, 'vl': node.variety_list,
+                            'booster': (list(prev_node.restrictions['booster_variety_list'])
+                                        if type(prev_node).__name__ == 'Roadm' else None),
+                            'preamp': (list(next_node.restrictions['preamp_variety_list'])
+                                       if type(next_node).__name__ == 'Roadm' else None),
+                            'bands': [[int(b['f_min']), int(b['f_max'])] for b in _design_bands.values()],
+                            'out': list(out)})
+        return out
+
+    def w_pre(uid, _amplifiers, prev_node, next_node, power_mode, prev_voa, prev_dp, pref_total_db, network, equipment,
+              restrictions, _design_bands, deviation_db, tilt_target):
+        rec = {'uid': uid, 'restrictions': list(restrictions),
+               'bands': [[int(_design_bands[b]['f_min']), int(_design_bands[b]['f_max'])] for b in _amplifiers]}
+        k0 = len(targets)
+        pre_calls.append(rec)
+        try:
+            out = o_pre(uid, _amplifiers, prev_node, next_node, power_mode, prev_voa, prev_dp, pref_total_db, network,
+                        equipment, restrictions, _design_bands, deviation_db=deviation_db, tilt_target=tilt_target)
+        except ConfigurationError:
+            rec['targets'] = targets[k0:]
+            rec['out'] = 'ConfigurationError'
+            raise
+        rec['targets'] = targets[k0:]
+        rec['out'] = list(out)
+        return out
+
+    def w_sel(raman_allowed, gain_target, power_target, edfa_eqpt, uid, target_extended_gain, verbose=True):
+        rec = {'raman_allowed': bool(raman_allowed), 'gain': float(gain_target), 'power': float(power_target),
+               'names': list(edfa_eqpt), 'uid': uid, 'ext': float(target_extended_gain), 'out': None}
+        sel_calls.append(rec)
+        out = o_sel(raman_allowed, gain_target, power_target, edfa_eqpt, uid, target_extended_gain, verbose)
+        rec['out'] = (out[0], float(out[1]))
+        return out
+    gnet.get_node_restrictions, gnet.preselect_multiband_amps, gnet.select_edfa = w_restr, w_pre, w_sel
+    gnet.compute_gain_power_and_tilt_target = w_cmp
+    err = None
+    try:
+        designed_network(eq, net, source='trx A', destination='trx B')
+    except (ConfigurationError, NetworkTopologyError) as e:
+        err = err_kind(e)
+    finally:
+        gnet.get_node_restrictions, gnet.preselect_multiband_amps, gnet.select_edfa = o_restr, o_pre, o_sel
+        gnet.compute_gain_power_and_tilt_target = o_cmp
+    lib = lib_json(eq)
+    # ---------------- correspondence
+    for r in restr_calls:
+        ctx = {'type_variety': r['tv'] or '', 'variety_list': r['vl'], 'prev_booster': r['booster'],
+               'next_preamp': r['preamp']}
+        model = drv.ask('c10.restrictions', lib=lib, ctx=ctx, bands=r['bands'], multi=True)
+        res.cmp_exact('get_node_restrictions.multiband', r['out'], model, uid=r['uid'])
+    for pc in pre_calls:
+        if len(pc.get('targets', [])) < 1:
+            continue
+        tg = [{'band': b, 'gain': f2b(t[0]), 'power': f2b(t[1])} for b, t in zip(pc['bands'], pc['targets'])]
+        m = drv.ask('c10.preselect', lib=lib, restrictions=pc['restrictions'], ext=f2b(case['ext']), targets=tg)
+        model = list(m['ok']) if 'ok' in m else m['error']
+        if isinstance(model, list) or len(pc['targets']) == len(pc['bands']) or pc['out'] != 'ConfigurationError':
+            res.cmp_exact('preselect_multiband_amps', pc['out'], model, uid=pc['uid'])
+    # ---------------- monitor
+    rmap = {r['uid']: r for r in restr_calls}
+    specs = {it['uid']: it for d in ('ab', 'ba') for it in case['lines'][d] if it['el'] == 'mb'}
+
+    def permitted_multi(uid, node):
+        it = specs[uid]
+        prev_node = next(net.predecessors(node))
+        next_node = next(net.successors(node))
+        if it['variety_list']:
+            r_ = it['variety_list']
+        elif type(prev_node).__name__ == 'Roadm' and case['roadm'][prev_node.uid[-1]]['booster_variety_list']:
+            r_ = case['roadm'][prev_node.uid[-1]]['booster_variety_list']
+        elif type(next_node).__name__ == 'Roadm' and case['roadm'][next_node.uid[-1]]['preamp_variety_list']:
+            r_ = case['roadm'][next_node.uid[-1]]['preamp_variety_list']
+        else:
+            r_ = None
+        return {n for n, a in eq['Edfa'].items() if a.type_def == 'multi_band'
+                and (n in r_ if r_ is not None else a.allowed_for_design)}
+    by = nets.by_uid(net)
+    auto = 0
+    for s_ in sel_calls:
+        node = by.get(s_['uid'])
+        if node is None or s_['uid'] not in specs or specs[s_['uid']]['type_variety']:
+            continue
+        pm = permitted_multi(s_['uid'], node)
+        members = {t for m_ in pm for t in eq['Edfa'][m_].multi_band}
+        if s_['out'] is not None and s_['out'][0] not in members:
+            res.fail(f'permitted set: {s_["uid"]}: per-band choice {s_["out"][0]} belongs to no permitted multiband model '
+                     f'{sorted(pm)}')
+        elif s_['out'] is not None:
+            monitor_choice(res, eq, set(s_['names']), s_['raman_allowed'], s_['gain'], s_['power'], s_['ext'],
+                           s_['out'][0], s_['out'][1], where=f'{s_["uid"]}: ')
+    def same_grouping(t1, t2):
+        return (t1 in eq['Edfa'] and t2 in eq['Edfa'] and eq['Edfa'][t1].type_def == 'multi_band'
+                and eq['Edfa'][t2].type_def == 'multi_band'
+                and sorted(eq['Edfa'][t1].multi_band) == sorted(eq['Edfa'][t2].multi_band))
+    DUP = 'multiband-duplicate-grouping-arbitrary-type'
+    if err is None:
+        for uid, it in specs.items():
+            node = by[uid]
+            tv = node.params.type_variety
+            if it['type_variety']:
+                if tv != it['type_variety']:
+                    res.fail(f'permitted set: {uid}: user type_variety {it["type_variety"]} replaced by {tv}',
+                             cls=DUP if same_grouping(tv, it['type_variety']) else 'unlisted')
+                continue
+            auto += 1
+            pm = permitted_multi(uid, node)
+            if tv not in pm:
+                picks = [a.params.type_variety for a in node.amplifiers.values()]
+                members = {t for m_ in pm for t in eq['Edfa'][m_].multi_band}
+                if any(same_grouping(tv, m_) for m_ in pm):
+                    cls = DUP
+                elif set(picks) <= members:
+                    # every per-band model is a member of a permitted entry, but of different ones
+                    cls = 'multiband-per-band-choices-form-unpermitted-type'
+                else:
+                    cls = 'unlisted'
+                res.fail(f'permitted set: {uid} received multiband type {tv} (per-band models {picks}), permitted are '
+                         f'{sorted(pm)}', cls=cls)
+                continue
+            picks = [a.params.type_variety for a in node.amplifiers.values()]
+            if not set(picks) <= set(eq['Edfa'][tv].multi_band):
+                res.fail(f'permitted set: {uid}: per-band models {picks} are not the members of its type {tv}')
+            dbands = rmap[uid]['bands'] if uid in rmap else case['bands']
+            for a in node.amplifiers.values():
+                b = a.params.bands[0]
+                if not any(b['f_min'] <= db[0] and b['f_max'] >= db[1] for db in dbands):
+                    res.fail(f'band cover: {uid}: model {a.params.type_variety} covers none of the design bands {dbands}')
+    res.nontrivial = auto > 0 or bool(pre_calls)
+    res.stats.update({'mtopo_cases': 1, 'mtopo_auto_nodes': auto, f'mtopo_outcome_{err or "designed"}': 1,
+                      'mtopo_preselect_calls': len(pre_calls), 'mtopo_select_calls': len(sel_calls)})
     return res
 
 
